@@ -192,28 +192,7 @@ Qed.
    end model keeps such a functor under a name that begins with a backslash (Lang/Unquote.v); it is touched by the
    compiler exactly when that name appears in the intermediate code (goals dropped as dead code after `fail`
    never get there). *)
-(* backslash + digit: the names of the operators \= and \== also begin with a backslash *)
-Definition bad_name (s : str) : bool := match s with 92%N :: c :: _ => is_digit c | _ => false end.
-
-Fixpoint expr_bad (e : expr) : bool :=
-  let go := fix go (l : list expr) : bool := match l with [] => false | x :: r => expr_bad x || go r end in
-  match e with
-  | EStr s => bad_name s
-  | ECall _ args => go args
-  | EList items => go items
-  | EVar _ | ENum _ => false
-  end.
-
-Fixpoint stmt_bad (st : stmt) : bool :=
-  let go := fix go (l : list stmt) : bool := match l with [] => false | x :: r => stmt_bad x || go r end in
-  match st with
-  | SAssign _ e => expr_bad e
-  | SForeach it body => expr_bad it || go body
-  | SBlock _ body => go body
-  | SYieldFalse | SYieldTrue | SReturn | SBreakBlock _ => false
-  end.
-
-Definition ir_bad (ir : ir_program) : bool := existsb (fun f => existsb stmt_bad (fn_body f)) ir.
+From YP Require Import Comp.NumeralName.
 
 (* COMPILE_FRONT: the model of _compile_prolog_from_stream up to the intermediate code.
    None = the implementation raises; Some (prog, ir) = it goes on to print ir. *)
@@ -244,14 +223,18 @@ Proof.
   rewrite Ec in Ec1. injection Ec1 as <-. repeat split; auto. exists ks. auto.
 Qed.
 
-(* ------------------------------------------------------------------ executable entry point for the harness (C10):
-   text -> tokens -> tree -> AST -> intermediate code -> Python text, the whole of _compile_prolog_from_stream *)
-From YP Require Import Comp.Emit Comp.RunCompile.
+(* ------------------------------------------------------------------ the text-producing model
 
-Definition run_text (s : str) : obs :=
-  match compile_front s with
-  | Some (p, _) => run_compile p
-  | None => otag "none" []
-  end.
+   Comp/CompileText.compile_text (emit worker) is the whole of compile_prolog_from_string, down to the Python text and
+   CPython's size limits; it is what the C10 check compares byte for byte with the implementation.  It returns text
+   only where compile_front returns code, and the text is the emission of exactly that code. *)
+From YP Require Import Comp.Emit Comp.PyRepr Comp.Limits Comp.CompileText.
 
-Definition run_all (s : str) : obs := OL [run_lex s; run_front s; run_text s].
+Theorem compile_text_front printable s text : compile_text printable s = CText text ->
+  exists p ir, compile_front s = Some (p, ir) /\ text = emit_program (py_repr printable) ir.
+Proof.
+  unfold compile_text, compile_ast, finish, compile_front. intros H.
+  destruct (front s) as [p|]; [|discriminate]. destruct (compile_program p) as [ir|]; [|discriminate].
+  destruct (ir_bad ir); [discriminate|]. destruct (ir_nums_ok ir); [|discriminate]. simpl in H.
+  destruct (py_limits ir); [|discriminate]. injection H as <-. eauto.
+Qed.
